@@ -97,7 +97,18 @@ pub fn flush() {
 }
 
 fn q(s: &str) -> String {
-    format!("{:?}", s)
+    // JSON string (Rust's Debug quoting is not JSON for control characters)
+    let mut o = String::from("\"");
+    for c in s.chars() {
+        match c {
+            '"' => o.push_str("\\\""),
+            '\\' => o.push_str("\\\\"),
+            c if (c as u32) < 0x20 => o.push_str(&format!("\\u{:04x}", c as u32)),
+            c => o.push(c),
+        }
+    }
+    o.push('"');
+    o
 }
 
 fn options_json(meta: &divan::__private::EntryMeta) -> String {
@@ -294,6 +305,8 @@ ARG_KINDS = {
     "rot_strs": ("crate::STRS[1..].iter().chain(crate::STRS[..1].iter())", "&str", ["q", "o", "p"], "x.to_string()"),
     "sorted_ref_strs": ("{ let mut v: Vec<&&str> = crate::WORDS.iter().collect(); v.sort_by_key(|s| s.len()); v }", "&str", ["a", "bb", "ccc"], "x.to_string()"),
     "skip_strs": ("crate::STRS.iter().skip(1)", "&str", ["q", "o"], "x.to_string()"),
+    # a rendering that contains a NUL character (any joined-and-split name buffer must survive its separator)
+    "nul_chars": ("['a', '\\0', 'b', 'c']", "char", ["a", "\0", "b", "c"], "x.to_string()"),
     "one": ("[7]", "u8", ["7"], "x.to_string()"),
     "empty": ("[]", "u8", [], "x.to_string()"),
 }
@@ -525,6 +538,7 @@ def family_forms(m, tier):
         dict(raw_name="a_dbg_tuple", args="dbg_tuple", form="bencher"),
         dict(raw_name="a_bools", args="bools"),
         dict(raw_name="a_u128s", args="u128s"),
+        dict(raw_name="a_nul_chars", args="nul_chars"),
         dict(raw_name="named_path_like", name="looks::like a path"),
         dict(raw_name="g_types", types=["TA", "TB"]),
         dict(raw_name="g_types_empty", types=[]),
